@@ -786,6 +786,13 @@ func main() {
 			}
 		}
 	}
+	// archives (only they can) whose entry names are valid but not in their
+	// shortest form: they are served under the names they are stored under
+	for _, l := range []string{"txt", "txtar"} {
+		for _, fs := range [][]string{{"go.mod", "sub//y.go"}, {"sub/./z.go", "x.go"}, {"a/../b.go", "go.mod", "sub/y.go"}, {"sub//y.go", "sub/y.go"}, {"./x.go"}} {
+			dirs = append(dirs, []modVer{{"a.com/m", "v1.0.0", l, fs}}, []modVer{{"a.com/m/v2", "v2.0.0", l, fs}, {"a.com/m", "v1.0.0", "dir", fsets[0]}})
+		}
+	}
 	// stored names at the file system's limit of 255 bytes: with ".txt" it still
 	// fits and with ".txtar" it does not (238), or the bare directory name fits
 	// and neither archive name does (239, 242)
